@@ -64,7 +64,7 @@ func safely(f func()) (panicked interface{}) {
 
 // c16: dynamic half of C16 — the parsed tree is bit-for-bit what it was after any mix of the four API paths.
 func runC16(res *Result, tier string, seed int64, replay string) {
-	res.Rule = "documents = all testdata fixtures + explicit documents (head-reading; invalid attribute after valid ones; children in orders a renderer might normalise) + seeded grammar documents (rich generator: head attributes, classes, fonts, inline styles, all leaf kinds); each is parsed once (RenderWithAST), deep-snapshotted (values, slice len/cap, backing-array identity, spare capacity), then rendered again through RenderFromAST, NewFromAST+RenderComponentString, RenderFromAST(debug) and twice through Render(WithCache) and re-snapshotted; non-trivial = document with at least one section; distinct by source text"
+	res.Rule = "documents = all testdata fixtures + explicit documents (head-reading; invalid attribute after valid ones; children in orders a renderer might normalise; every component × every attribute with white space around the value / upper case) + seeded grammar documents (rich generator: head attributes, classes, fonts, inline styles, all leaf kinds); each is parsed once (RenderWithAST), deep-snapshotted (values, slice len/cap, backing-array identity, spare capacity), then rendered again through RenderFromAST, NewFromAST+RenderComponentString, RenderFromAST(debug) and twice through Render(WithCache) and re-snapshotted; non-trivial = document with at least one section; distinct by source text"
 	var docs []struct{ name, src string }
 	for _, f := range loadFixtures() {
 		docs = append(docs, struct{ name, src string }{"fixture:" + f.Name, f.MJML})
@@ -86,6 +86,32 @@ func runC16(res *Result, tier string, seed int64, replay string) {
 		`<mj-section><mj-group><mj-column width="70%"><mj-text>wide</mj-text></mj-column><mj-column width="30%"><mj-text>narrow</mj-text></mj-column></mj-group></mj-section>` +
 		`<mj-hero><mj-button href="u">B</mj-button><mj-text>after button</mj-text></mj-hero></mj-body>` +
 		`<mj-head><mj-title>late head</mj-title><mj-attributes><mj-text color="#111111"/><mj-all padding="1px"/></mj-attributes></mj-head></mjml>`})
+	// every component with every one of its attributes written with white space around the value, upper-case units and a
+	// three-digit colour: values a renderer may want to tidy up — in its own copy, not in the tree
+	for _, tag := range bodyTags {
+		if tag == "mj-raw" {
+			continue
+		}
+		var all [3][]string
+		for _, a := range allowedSorted(tag) {
+			v1, _ := testValues(a[0], a[1])
+			if v1 == "" || a[0] == "mj-class" {
+				continue
+			}
+			for vi, v := range []string{" " + v1 + " ", "\t" + v1, strings.ToUpper(v1)} {
+				all[vi] = append(all[vi], a[0]+`="`+xmlAttrEsc(v)+`"`)
+				if src := legalContext(tag, a[0]+`="`+xmlAttrEsc(v)+`"`, ""); src != "" {
+					docs = append(docs, struct{ name, src string }{fmt.Sprintf("padded:%s/%s/%d", tag, a[0], vi), src})
+				}
+			}
+		}
+		// … and all of them at once (markup paths chosen by combinations: a hero's height with its paddings, …)
+		for vi := range all {
+			if src := legalContext(tag, strings.Join(all[vi], " "), ""); src != "" {
+				docs = append(docs, struct{ name, src string }{fmt.Sprintf("padded-all:%s/%d", tag, vi), src})
+			}
+		}
+	}
 	n := 300
 	if tier == "thorough" {
 		n = 6000
